@@ -483,11 +483,13 @@ theorem parseHeaders_run (fuel : Nat) (data : Bytes) (parts0 : List Bytes) (h : 
        (fun l hl => by have := hlen l (List.mem_of_mem_tail hl); omega)
      have hcnt : ∀ l : List Bytes, Cxx.count l = (3 : Int) ↔ l.length = 3 := by
        intro l; unfold Cxx.count; omega
-     simp only [show ([13, 10] : Bytes) = CRLF from rfl, show ([32] : Bytes) = [SP] from rfl, h1, Cxx.takeFirst, h2, h3,
+     have hnth : ∀ l : List Bytes, Cxx.nth l 0 = l.headD [] := by
+       intro l; cases l <;> simp [Cxx.nth]
+     simp only [show ([13, 10] : Bytes) = CRLF from rfl, show ([32] : Bytes) = [SP] from rfl, h1, Cxx.takeFirst, hnth, h2, h3,
        ne_eq, hcnt]
      by_cases hc : (parts0 ++ split [SP] 2 ((split CRLF 0 data).headD [])).length = 3
-     · simp only [hc]; simp
-     · simp only [hc]; simp)
+     · simp only [hc]; all_goals simp
+     · simp only [hc]; all_goals simp)
 
 /-- `headersRun` against the model -/
 theorem headersRun_model (data : Bytes) (h : HeaderMap) :
@@ -683,7 +685,8 @@ theorem parseResponseHeaders_run (fuel : Nat) (data : Bytes) (sc : Int) (sr : By
        -- whatever form the range test has in the C++ (`>= && <=`, `< || >` with two returns, ...)
        all_goals first
        | rfl
-       | (by_cases hc1 : 100 ≤ toIntQ p1 <;> by_cases hc2 : toIntQ p1 ≤ 599 <;> simp [hc1, hc2] <;> omega))
+       | (by_cases hc1 : 100 ≤ toIntQ p1 <;> by_cases hc2 : toIntQ p1 ≤ 599 <;> simp [hc1, hc2] <;> omega)
+       | grind)
 
 /-- against the model's `parseResponseHeaders` (which starts from the empty map, as `ProxySocket` does) -/
 theorem parseResponseHeaders_eq (fuel : Nat) (data : Bytes) (sc : Int) (sr : Bytes) (hf : data.length < fuel) :
